@@ -67,8 +67,12 @@ func (g *SimplePoint) Contains(obj Object) bool {
 }
 
 func (g *SimplePoint) Intersects(obj Object) bool {
-	if obj, ok := obj.(*Circle); ok {
+	switch obj := obj.(type) {
+	case *Circle:
 		return obj.Contains(g)
+	case *Feature:
+		// the feature may wrap a circle
+		return g.Intersects(obj.base)
 	}
 	return obj.Spatial().IntersectsPoint(g.Point)
 }
